@@ -83,6 +83,7 @@ type Exec struct {
 	paths          int
 	returns        int
 	covers         []*Obligation
+	anteCovers     []*Obligation
 	safetyOn       bool
 	noOverread     bool
 	maxPaths       int
